@@ -288,7 +288,7 @@ package wtxmgr
 //@   invariant 5 c_only_ours: select(DBval, B_C(ns)) == loopentry(select(DBval, B_C(ns))) && (forall ck Bytes :: {select(select(DBhas, B_C(ns)), ck)} (HAS(B_C(ns), ck) ==> HAS_LE(B_C(ns), ck))
 //@       && (HAS_LE(B_C(ns), ck) && !HAS(B_C(ns), ck) ==> (exists x Int :: {at(x)} at(x) && 0 <= x && x <= rangeindex && ck == RB_KDE(rec, it, x))))
 //@   invariant 5 mark: at(rangeindex + 1)
-//@   invariant 5 credits_moved: len(rec.MsgTx.TxOut) <= 4294967295 ==> (forall j Int :: {at(j)} at(j) && 0 <= j && j <= rangeindex && HAS_LE(B_C(ns), RB_KDE(rec, it, j)) ==>
+//@   invariant 5 credits_moved@C01@C02@C13: len(rec.MsgTx.TxOut) <= 4294967295 ==> (forall j Int :: {at(j)} at(j) && 0 <= j && j <= rangeindex && HAS_LE(B_C(ns), RB_KDE(rec, it, j)) ==>
 //@       mcIndex(K_op(loopentry(rec.Hash), j)) == j && HAS(B_MC(ns), K_op(loopentry(rec.Hash), j))
 //@       && VAL(B_MC(ns), K_op(loopentry(rec.Hash), j)) == V_cr(amtOf(VAL_LE(B_C(ns), RB_KDE(rec, it, j))), crChangeBit(VAL_LE(B_C(ns), RB_KDE(rec, it, j)))))
 //@   invariant 5 credits_left: forall j Int :: {at(j)} at(j) && 0 <= j && j <= rangeindex && HAS_LE(B_C(ns), RB_KDE(rec, it, j)) ==>
